@@ -1,9 +1,10 @@
 #!/usr/bin/env python3
-"""ad-hoc mutation helper:  tools/mut.py <Cxx[,Cyy]> <relative file> <<< 'OLD\n====\nNEW'
+"""ad-hoc mutation helper:  tools/mut.py <Cxx[,Cyy]> <relative file> [--keep NAME] <<< 'OLD\n====\nNEW'
 copies /repo to a scratch dir, applies the replacement, runs the checks against the copy (analysis only)."""
 import os, shutil, subprocess, sys, tempfile
 pids = sys.argv[1].split(',')
 rel = sys.argv[2]
+keep = sys.argv[4] if len(sys.argv) > 4 and sys.argv[3] == '--keep' else None
 spec = sys.stdin.read()
 old, new = spec.split('\n====\n')
 old = old.strip('\n'); new = new.rstrip('\n')
@@ -21,6 +22,13 @@ try:
     lines = [l for l in r.stdout.splitlines() if 'VIOLATION' not in l]
     print('\n'.join(lines[-8:]))
     print('exit', r.returncode)
+    if keep and r.returncode == 1:
+        # store the edit as a unified diff for the thorough tier's self-test: selftest/breaking/<Cxx>-<name>.diff
+        import difflib
+        a = s.splitlines(keepends=True); b = s.replace(old, new).splitlines(keepends=True)
+        out = os.path.join(os.path.dirname(os.path.abspath(__file__)), '..', 'selftest', 'breaking', '%s-%s.diff' % (pids[0], keep))
+        open(out, 'w').write(''.join(difflib.unified_diff(a, b, 'a/' + rel, 'b/' + rel)))
+        print('kept', os.path.normpath(out))
     if r.stderr.strip(): print(r.stderr[-800:])
 finally:
     shutil.rmtree(d)
